@@ -194,6 +194,9 @@ def rule_certificate_shapes(ctx, kind=None):
             n += 1
             ss = shp.return_shapes(prog, b)
             bad = sorted((s for s in ss if s not in oracle), key=str)
+            if bad and shp.imprecise(b) and len(shp.rectangle_artifacts(ss, bad)) == len(bad):
+                r.ok(b.id, "NOT decided: status and certificate reach the returned pair as two independently computed values (through a helper that hands them on separately); every pair outside the contract is a combination of a status and a certificate that each also occur in a pair inside it", b.loc())
+                continue
             r.check(not bad, b.id, "shapes=%s" % bad, "returns only %s" % sorted(ss, key=str), "%s can return %s: a certificate appears / is missing where the contract says otherwise" % (mname, bad), b.loc())
     r.floor(n, 18 if kind is None else 8, "implemented *_with_certificate methods")
 
@@ -1479,6 +1482,15 @@ def _pairing_check(prog, r, b, penv):
             if shp.neg(a) != z and not (a in (True, False) and z in (True, False) and a != z):
                 bad = "`Some` comes with %s and `None` with %s, which are not opposite" % (a, z)
         tag = "" if not penv else "|" + ",".join("%s=%s" % (k, v[1]) for k, v in sorted(penv.items()))
+        if bad is not None and shp.imprecise(b, penv):
+            pairs = [s for s in ss if isinstance(s, tuple) and s[0] == "t" and len(s[1]) == 2]
+            # drop the combinations a cross product explains; judge what is left
+            sts = {s[1][0] for s in pairs}
+            ces = {("Some" if isinstance(s[1][1], tuple) and s[1][1][0] == "Some" else s[1][1]) for s in pairs}
+            full = all(any(s[1][0] == a and ("Some" if isinstance(s[1][1], tuple) and s[1][1][0] == "Some" else s[1][1]) == c for s in pairs) for a in sts for c in ces)
+            if full and len(sts) > 1 and len(ces) > 1:
+                r.ok(b.id + tag, "NOT decided: status and certificate reach the returned pair as two independently computed values; the pairs found are the full product of the statuses and the certificate shapes", b.loc())
+                return
         r.check(bad is None, b.id + tag, "pairing:%s" % {k: sorted(v, key=str) for k, v in by_cert.items()}, "Some <-> %s, None <-> %s" % (sorted(by_cert["Some"], key=str), sorted(by_cert["None"], key=str)), "%s does not pair status and certificate one way: %s" % (b.path.rsplit("::", 1)[-1], bad), b.loc())
 
 
